@@ -110,7 +110,7 @@ func execCacheOp(c CacheLike, in CIn, l *ledger, parkInFn func()) COut {
 			}
 			return !(in.Stop > 0 && n >= in.Stop)
 		})
-		out.Pairs, out.N = sortedPairs(m), len(m)
+		out.Pairs, out.N = sortedPairs(m), n // N counts every visit, Pairs only the alphabet keys
 		if dup {
 			out.N = -1
 		}
@@ -118,12 +118,13 @@ func execCacheOp(c CacheLike, in CIn, l *ledger, parkInFn func()) COut {
 		c.RangeNil()
 	case CItems:
 		m := c.Items()
+		out.N = len(m)
 		for k := range m {
 			if k >= NKC {
 				delete(m, k)
 			}
 		}
-		out.Pairs, out.N = sortedPairs(m), len(m)
+		out.Pairs = sortedPairs(m)
 	case CClear:
 		c.Clear()
 	case CCount:
